@@ -751,6 +751,16 @@ func (env *SpecEnv) call(e *Expr) *SV {
 		argN(1)
 		a := env.eval(e.Args[0])
 		return &SV{T: x.validOf(env, a, e)}
+	case "implements":
+		// implements(x, "pkg/path.Iface"): the dynamic type of interface value x implements the interface
+		argN(2)
+		a := env.eval(e.Args[0])
+		it := x.eng.typeByString(e.Args[1].Name)
+		if it == nil {
+			stale("implements: unknown interface %s in %s", e.Args[1].Name, e)
+		}
+		x.eng.DeclareUF("implements", SBool, SInt, SInt)
+		return &SV{T: And(Neq(a.T, IntLit(0)), App("implements", SBool, x.dynType(a.T), x.typeIDOf(it)))}
 	case "present":
 		// present(m, k): key k is in map m (maps with basic-typed keys)
 		argN(2)
